@@ -110,3 +110,141 @@ Theorem budget_log_bound_fractional_refuted :
     calc_budget total first M g = Ok r /\ ~ r <= M * (Z.of_nat k + 1).
 Proof. exact BudgetProofs.budget_log_bound_fractional_refuted. Qed.
 Print Assumptions budget_log_bound_fractional_refuted.
+
+Theorem budget_log_bound_growth_three_halves : forall M first total (k : nat) r,
+  1 <= M -> 2 <= first ->
+  total * 4 ^ Z.of_nat k < M * first * 5 ^ Z.of_nat k ->
+  calc_budget total first M (3 # 2) = Ok r -> r <= M * (Z.of_nat k + 1).
+Proof. exact budget_log_bound_three_halves. Qed.
+Print Assumptions budget_log_bound_growth_three_halves.
+
+Theorem budget_nonneg_and_positive : forall total first M (g : Q) b,
+  calc_budget total first M g = Ok b -> 0 <= b /\ (0 < total -> 1 <= b) /\ (total <= 0 -> b = 0).
+Proof. exact calc_budget_sign. Qed.
+Print Assumptions budget_nonneg_and_positive.
+
+(* ---------------- concrete instances: the hypotheses above are satisfiable ---------------- *)
+
+Example plan_instance :
+  sane_options ex_opts /\ NoDup (ids ex_segs) /\
+  budget_of ex_opts (sort_segs ex_segs) = Ok 11 /\
+  option_map (map ids) (match plan ex_score (Some ex_opts) ex_segs with Ok p => p | _ => None end)
+  = Some [[3; 11]; [13; 5; 6]; [15; 18; 19]; [9; 17; 16]].
+Proof. exact plan_example. Qed.
+Print Assumptions plan_instance.
+
+Example plan_deterministic_instance :
+  Permutation ex_segs (rev ex_segs) /\
+  plan ex_score (Some ex_opts) (rev ex_segs) = plan ex_score (Some ex_opts) ex_segs.
+Proof. exact plan_deterministic_example. Qed.
+Print Assumptions plan_deterministic_instance.
+
+Example default_options_instance :
+  budget_of default_options (sort_segs ex_default_segs) = Ok 11 /\
+  option_map (map (fun t => zlen t)) (match plan ex_score None ex_default_segs with Ok p => p | _ => None end)
+  = Some [10; 10; 10].
+Proof. exact default_budget_example. Qed.
+Print Assumptions default_options_instance.
+
+(* the chosen roster has the smallest score among the rosters of all start indices *)
+Theorem best_roster_is_minimal : forall (score : list seg -> Z) o elig r,
+  best_roster score o elig = Some r ->
+  In r (all_rosters o elig) /\ forall x, In x (all_rosters o elig) -> score r <= score x.
+Proof. exact best_roster_spec. Qed.
+Print Assumptions best_roster_is_minimal.
+
+(* ---------------- executing plans ---------------- *)
+
+(* executing a plan never raises #segments + #segments-with-deletions, and strictly lowers it
+   when the plan is non-empty and has no no-op task (one segment, no deletions, live > 0) *)
+Theorem apply_progress : forall (score : list seg -> Z) o segs next ts,
+  NoDup (ids segs) -> Forall (fun s => seg_id s <= next) segs ->
+  plan_with score o segs = Ok (Some ts) ->
+  measure (fst (apply_plan (segs, next) ts)) <= measure segs /\
+  (ts <> [] -> existsb noop_task ts = false -> measure (fst (apply_plan (segs, next) ts)) < measure segs) /\
+  wf_state (apply_plan (segs, next) ts).
+Proof. exact apply_progress_all. Qed.
+Print Assumptions apply_progress.
+
+Example apply_progress_instance :
+  match plan_with ex_score ex_opts ex_segs with
+  | Ok (Some ts) =>
+      ts <> [] /\ existsb noop_task ts = false /\ measure ex_segs = 26 /\
+      measure (fst (apply_plan (ex_segs, 19) ts)) = 16
+  | _ => False
+  end.
+Proof. exact apply_progress_example. Qed.
+Print Assumptions apply_progress_instance.
+
+(* FULL STATEMENT WANTED (property text): repeated plan/apply reaches a state with no further
+   work.  It is false (convergence_refuted below).  Proved: from any state, within
+   #segments + #segments-with-deletions cycles the merger is handed a plan containing a no-op
+   task, or reaches an empty plan; there the number of mergeable segments is at most
+   max(budget, 1) (1: a single segment is never planned, merge_plan.go:140). *)
+Theorem convergence_partial : forall (score : list seg -> Z) o, sane_options o ->
+  forall (n : nat) segs next,
+  NoDup (ids segs) -> Forall (fun s => seg_id s <= next) segs ->
+  measure segs <= Z.of_nat n ->
+  (exists st', run_cycles n score o (segs, next) = NoopPlanned st') \/
+  (exists st' b, run_cycles n score o (segs, next) = Quiescent st' /\
+                 budget_of o (sort_segs (fst st')) = Ok b /\
+                 zlen (eligibles o (fst st')) <= Z.max 1 b /\
+                 measure (fst st') <= measure segs).
+Proof. exact convergence_partial_all. Qed.
+Print Assumptions convergence_partial.
+
+Example convergence_instance :
+  match run_cycles 26 ex_score ex_opts (ex_segs, 19) with
+  | Quiescent st =>
+      zlen (fst st) = 11 /\ zlen (eligibles ex_opts (fst st)) = 9 /\
+      budget_of ex_opts (sort_segs (fst st)) = Ok 10
+  | _ => False
+  end.
+Proof. exact convergence_example. Qed.
+Print Assumptions convergence_instance.
+
+(* a score, sane options with SegmentsPerMergeTask = 2 and three segments without deletions:
+   after any number of cycles the next plan is again three single-segment no-op tasks and
+   executing it reproduces the same sizes *)
+Theorem convergence_refuted :
+  exists (score : list seg -> Z) (o : options) (segs : list seg) (next : Z),
+    sane_options o /\ 2 <= o_per_task o /\ NoDup (ids segs) /\ Forall (fun s => seg_id s <= next) segs /\
+    forall n : nat, exists st ts st',
+      iter_cycles n score o (segs, next) = Ok st /\
+      cycle score o st = Ok (Some ts, st') /\
+      ts <> [] /\ forallb noop_task ts = true /\ sizes (fst st') = sizes segs.
+Proof. exact convergence_refuted_all. Qed.
+Print Assumptions convergence_refuted.
+
+Example noop_task_instance :
+  let o := mkopts 1 1000 4 3 10 2 in
+  let l := [mkseg 1 700 600; mkseg 2 40 40; mkseg 3 50 0; mkseg 4 45 30; mkseg 5 20 20; mkseg 6 20 20;
+            mkseg 7 499 499; mkseg 8 500 500; mkseg 9 15 15; mkseg 10 300 120; mkseg 11 0 0;
+            mkseg 12 90 70; mkseg 13 25 22; mkseg 14 12 12] in
+  option_map (map ids) (match plan ex_score (Some o) l with Ok p => p | _ => None end)
+  = Some [[3; 11]; [13; 5; 6]; [2; 4; 9]; [10; 12; 14]; [7]] /\
+  noop_task [mkseg 7 499 499] = true.
+Proof. exact noop_task_example. Qed.
+Print Assumptions noop_task_instance.
+
+(* ---------------- histories: arrivals, deletions, merger cycles ---------------- *)
+
+(* over ANY history the number of useful (non no-op) tasks executed, plus the final
+   #segments + #segments-with-deletions, is at most the initial measure + 2 per arrival + 1 per
+   deletion: the merger's work is linear in what arrives, for every score function *)
+Theorem history_work_bound : forall (score : list seg -> Z) o h st work st' w,
+  wf_state st ->
+  run_history score o h st work = Ok (st', w) ->
+  wf_state st' /\ w + measure (fst st') <= work + measure (fst st) + 2 * arrivals h + deletions h.
+Proof. exact history_work_bound_all. Qed.
+Print Assumptions history_work_bound.
+
+Example history_instance :
+  match run_history ex_score ex_opts
+          [EArrive 30 30; ECycle; EArrive 12 12; EDelete 8 100; EArrive 9 9; ECycle; EArrive 11 11; ECycle]
+          (ex_segs, 19) 0 with
+  | Ok (st, w) => w = 5 /\ measure (fst st) = 18 /\ w + measure (fst st) <= 0 + measure ex_segs + 2 * 4 + 1
+  | _ => False
+  end.
+Proof. exact history_example. Qed.
+Print Assumptions history_instance.
